@@ -86,6 +86,11 @@ def atomic_grid(degree, rmin=0.0, laguerre=False, rotate=0):
             btf = BeckeRTransform(rmin, 1.5)
             rg = btf.transform_1d_grid(GaussLegendre(80))
             tf = InverseRTransform(btf)
+        if rotate == "pruned":
+            # mixed per-shell degrees (what the pruned constructors produce): the harmonic basis is truncated per shell
+            n = rg.size
+            degs = [degree + (4 if n // 3 <= i < 2 * n // 3 else (2 if i >= 2 * n // 3 else 0)) for i in range(n)]
+            return AtomGrid(rg, degrees=degs, center=CENTRE, rotate=5), tf
         return AtomGrid(rg, degrees=[degree], center=CENTRE, rotate=rotate), tf
 
 
@@ -98,7 +103,7 @@ def _bvp_case(arg):
     boundary_kind, include_origin, remove, tfkind = opts[:4]
     # a fifth entry is a rotation seed of the atomic grid (added after seeded change C16-F: the harmonic projection
     # ignoring the per-shell rotation, visible only for densities with l > 0 content on a rotated grid)
-    rot = int(opts[4]) if len(opts) > 4 else 0
+    rot = (opts[4] if opts[4] == "pruned" else int(opts[4])) if len(opts) > 4 else 0
     g, tf = atomic_grid(degree, rmin=1e-5 if tfkind == "becke-1e-5" else 0.0, laguerre=tfkind == "laguerre", rotate=rot)
     c = CENTRE + DISPLACEMENTS[disp]
     a = alpha * (1 + lattice.jitter(seed, f"a{alpha}", 0.0, 0.05))
@@ -446,6 +451,9 @@ def run(ctx):
     for disp in DISPLACEMENTS:
         for rot in (11, 37) if ctx.thorough else (11,):
             jobs.append(("bvp", (7, disp, 1.0, tuple(opts[0]) + (rot,), ctx.seed)))
+    if ctx.thorough:
+        jobs.append(("bvp", (7, "xy", 1.0, tuple(opts[0]) + ("pruned",), ctx.seed)))
+    jobs.append(("bvp", (7, "centred", 1.0, tuple(opts[0]) + ("pruned",), ctx.seed)))
     jobs.append(("lin", (7, ctx.seed)))
     if ctx.thorough:
         jobs.append(("lin", (15, ctx.seed)))
